@@ -15,10 +15,22 @@ Theorem c02_index_fidelity : forall e, src_env e -> fused e -> forall progs, wf_
 Proof. exact all_C02. Qed.
 Print Assumptions c02_index_fidelity.
 
-(** a wrapped iterator that is not fused: index fidelity holds on every run on which the wrapped next() has not yet answered None although elements remain ([gap_free]: none of the calls made so far is such an answer).  After such an answer it is false: positions fall behind the indices of the tickets ([Examples.gap_hypotheses_hold]) *)
+(** a wrapped iterator that is not fused: index fidelity holds on every run on which the wrapped next() has not yet answered None although elements remain ([gap_free]: none of the calls made so far is such an answer).  (As long as a waiting thread could still be served after such an answer it was false from then on: positions fell behind the indices of the tickets.  Since the waiting loop looks at the completed flag once more it holds on every run: [c02_index_fidelity_any_iterator] below.) *)
 Theorem c02_index_fidelity_until_first_gap : forall e, iter_env e -> forall progs, wf_progs progs -> forall sched,
   nowrap (c_labels (exec e (init progs) sched)) ->
   gap_free e (s_calls (c_sh (exec e (init progs) sched))) ->
   check_prop 2 e (c_trace (exec e (init progs) sched)) (c_labels (exec e (init progs) sched)) = true.
 Proof. exact iter_C02_until_gap. Qed.
 Print Assumptions c02_index_fidelity_until_first_gap.
+
+(** ** after the repair of the waiting loop (a thread that finds its ticket at the yielded counter looks at
+    the completed flag once more before it uses the wrapped iterator): nothing is delivered after the first
+    None of the wrapped iterator, premature or not ([C07.c07_no_call_after_none]) *)
+From OCI.proofs Require Import AfterNone.
+
+(** every wrapped iterator, fused or not: index fidelity, on every run *)
+Theorem c02_index_fidelity_any_iterator : forall e, iter_env e -> forall progs, wf_progs progs -> forall sched,
+  nowrap (c_labels (exec e (init progs) sched)) ->
+  check_prop 2 e (c_trace (exec e (init progs) sched)) (c_labels (exec e (init progs) sched)) = true.
+Proof. exact iter_C02_any. Qed.
+Print Assumptions c02_index_fidelity_any_iterator.
